@@ -35,8 +35,10 @@ def _modules(p, kinds=("modules", "apps")):
 
 def ctx_shuffle(p, rng):
     root = _root(p)
-    ctxs = root.get("contexts") or []
-    blds = root.get("builders") or []
+    if "contexts" not in root or "builders" not in root:
+        return
+    ctxs = root["contexts"]
+    blds = root["builders"]
     mode = rng.choice(["shuffle", "reverse", "later_doc"])
     if mode == "later_doc" and len(ctxs) >= 2:
         # move some non-first contexts that are parents of something into a later document
@@ -55,8 +57,6 @@ def ctx_shuffle(p, rng):
         root["contexts"] = head + rest
         rng.shuffle(blds)
         root["builders"] = blds
-    if not root.get("builders"):
-        root.pop("builders", None)
 
 
 def app_dup(p, rng):
@@ -145,6 +145,14 @@ def defaults_lists(p, rng):
                 w = rng.choice(pool)
                 if w not in own:
                     own.append(w)
+    # optional sources: the defaults and a module of the document both list optional sources under the same guard
+    if rng.random() < 0.5:
+        guard = rng.choice(names) if names else "nosuch"
+        dm.setdefault("sources", []).append({guard: ["dflt_opt.c"]})
+        m = d["modules"][0]
+        m.setdefault("sources", []).append({guard: [m["name"] + "_own_opt.c"]})
+        for a in [x for k, x, pa, dd in _modules(p, ("apps",))][:1]:
+            a["selects"] = ["?" + m["name"], "?" + guard] + list(a.get("selects") or [])
     # make the lists matter: an app selecting one module with merged lists and one module named by the defaults' conflicts
     apps = [m for k, m, pa, dd in _modules(p, ("apps",))]
     if apps and dm.get("conflicts"):
@@ -189,7 +197,34 @@ def late_ifthen_leaf(p, rng):
         a[key] = ["qn"] + list(a.get(key) or []) + tail
 
 
-SHAPES = [("p_ctx_shuffle", ctx_shuffle), ("p_app_dup", app_dup), ("p_rule_field_variant", rule_field_variant),
+def dup_listing(p, rng):
+    """the same lazefile reached twice: listed by two documents of one file, by two files, or twice in one list"""
+    root_docs = p["files"]["laze-project.yml"]
+    root = root_docs[0]
+    listed = [("subdirs", x) for x in root.get("subdirs") or []] + [("includes", x) for x in root.get("includes") or []]
+    if not listed:
+        # make one: a small included file
+        p["files"]["dupinc.yml"] = [{"modules": [{"name": "dupinc_m", "sources": ["dupinc_m.c"]}]}]
+        root["includes"] = list(root.get("includes") or []) + ["dupinc.yml"]
+        listed = [("includes", "dupinc.yml")]
+    kind, x = rng.choice(listed)
+    how = rng.choice(["second_doc", "same_list", "other_file"])
+    if how == "second_doc":
+        root_docs.append({kind: [x]})
+    elif how == "same_list":
+        root[kind] = list(root[kind]) + [x]
+    else:
+        others = [f for f in p["files"] if f != "laze-project.yml" and "/" not in f.replace("/laze.yml", "") and f.endswith("laze.yml")]
+        if kind == "includes" and others:
+            # a sub-directory file includes the root-level file by relative path
+            f = rng.choice(others)
+            depth = f.count("/")
+            p["files"][f][0]["includes"] = list(p["files"][f][0].get("includes") or []) + ["../" * depth + x]
+        else:
+            root_docs.append({kind: [x]})
+
+
+SHAPES = [("p_dup_listing", dup_listing), ("p_ctx_shuffle", ctx_shuffle), ("p_app_dup", app_dup), ("p_rule_field_variant", rule_field_variant),
           ("p_defaults_lists", defaults_lists), ("p_global_dep_order", global_dep_order), ("p_late_ifthen_leaf", late_ifthen_leaf)]
 
 
